@@ -6,6 +6,7 @@
 package main
 
 import (
+	"bufio"
 	"bytes"
 	"errors"
 	"fmt"
@@ -712,6 +713,98 @@ func hugeBody(c *mc.Ctx, item int) mc.Verdict {
 	return mc.Pass("decoded", true)
 }
 
+// consumersBody: the decoder is an io.Reader, and most callers consume it
+// through the helpers of package io, which look for optional interfaces
+// (io.WriterTo) before they fall back to Read.  Whatever path they take, the
+// result is the one the Read calls define: the segment contents, and an error
+// exactly where reading gives one.
+var consumerNames = []string{"io.ReadAll", "io.Copy to a plain writer", "io.Copy from a bufio.Reader around the decoder", "WriteTo called directly (if the decoder has one)", "io.CopyBuffer with a 3-byte buffer", "io.Copy to a bytes.Buffer"}
+
+type plainWriter struct{ buf []byte }
+
+func (w *plainWriter) Write(p []byte) (int, error) { w.buf = append(w.buf, p...); return len(p), nil }
+
+func consumersBody(streams []stream) func(c *mc.Ctx, item int) mc.Verdict {
+	return func(c *mc.Ctx, item int) mc.Verdict {
+		st := streams[item]
+		data, want, final := st.build()
+		consumer := c.Choose(len(consumerNames))
+		mode := c.Choose(3)
+		src := env.NewSource(data)
+		src.Decide = func(call, req, remaining int) (int, bool) {
+			switch mode {
+			case 1:
+				return 1, false
+			case 2:
+				return req, true // EOF together with the last bytes
+			}
+			return req, false
+		}
+		r := pfb.Decode(src)
+		var got []byte
+		var err error
+		switch consumer {
+		case 0:
+			got, err = io.ReadAll(r)
+		case 1:
+			w := &plainWriter{}
+			_, err = io.Copy(w, r)
+			got = w.buf
+		case 2:
+			w := &plainWriter{}
+			_, err = io.Copy(w, bufio.NewReaderSize(r, 16))
+			got = w.buf
+		case 3:
+			w := &plainWriter{}
+			if wt, ok := r.(io.WriterTo); ok {
+				_, err = wt.WriteTo(w)
+				got = w.buf
+			} else {
+				got, err = io.ReadAll(r)
+			}
+		case 4:
+			w := &plainWriter{}
+			_, err = io.CopyBuffer(w, struct{ io.Reader }{r}, make([]byte, 3))
+			if wt, ok := r.(io.WriterTo); ok && len(w.buf) == 0 && err == nil {
+				_, err = wt.WriteTo(w)
+			}
+			got = w.buf
+		default:
+			w := &bytes.Buffer{}
+			_, err = io.Copy(w, r)
+			got = w.Bytes()
+		}
+		c.Steps(src.Calls + 1)
+		what := fmt.Sprintf("%s consumed through %s; source mode %d", st.String(), consumerNames[consumer], mode)
+		fail := func(class, detail string) mc.Verdict {
+			v := mc.Fail("C14:consumer:"+class, what+": "+detail)
+			v.Render = what
+			return v
+		}
+		switch final {
+		case "eof":
+			if err != nil {
+				return fail("error-on-well-formed-stream", fmt.Sprintf("error %v", err))
+			}
+			if !bytes.Equal(got, want) {
+				return fail("wrong-output", fmt.Sprintf("output %q, expected %q", got, want))
+			}
+		case "invalid", "error-not-eof":
+			if err == nil {
+				return fail("error-lost", fmt.Sprintf("no error (output %q); reading the stream with Read calls ends with an error (%s)", got, final))
+			}
+			if !bytes.HasPrefix(want, got) {
+				return fail("wrong-output", fmt.Sprintf("output %q is not a prefix of %q", got, want))
+			}
+		default:
+			if !bytes.HasPrefix(want, got) {
+				return fail("wrong-output", fmt.Sprintf("output %q is not a prefix of %q", got, want))
+			}
+		}
+		return mc.Pass(final, len(want) > 0)
+	}
+}
+
 func main() {
 	mc.Main(mc.Program{
 		Property: "C14",
@@ -756,6 +849,12 @@ func main() {
 					streamFamily("streams-of-4-segments", 4, 2, []int{0, 1, 3}),
 				}
 			}
+			cs := allStreams(3, segLens)
+			fams = append(fams, mc.Family{
+				Name: "consumed-through-the-helpers-of-package-io", Items: len(cs), Body: consumersBody(cs), Budget: budget,
+				Rule:     fmt.Sprintf("item = one PFB stream (every sequence of <= 3 segments x lengths %v x 7 endings); choices: consumer of %d (io.ReadAll, io.Copy to a plain writer and to a bytes.Buffer, io.Copy from a bufio.Reader around the decoder, the decoder's own WriteTo if it has one, io.CopyBuffer with a 3-byte buffer) x source {full reads, one byte per read, EOF together with the last bytes}: the output is the segment contents (a prefix of them when the stream is broken) and an error is returned exactly for the streams whose Read sequence ends in one (cut-short binary segment, invalid header); non-trivial = non-empty expected output", segLens, len(consumerNames)),
+				Describe: func(i int) string { return cs[i].String() },
+			})
 			fams = append(fams, mc.Family{
 				Name:     "caller-buffers-beyond-32-bits",
 				Items:    len(giantBufs) * 2,
